@@ -248,13 +248,69 @@ example : getId {} { t3 := [⟨1, "a", 5⟩, ⟨2, "b", 5⟩, ⟨3, "c", 6⟩] }
 example : getId {} { t3 := [⟨1, "a", 5⟩, ⟨2, "b", 5⟩, ⟨3, "c", 6⟩] } ⟨⟨8, false⟩, ⟨1, 4⟩, "d"⟩ 7 { pick := 3 }
     = .error (.badChoice "full: returned id is not an oldest row of the subspace") := by rfl
 
+theorem newerFirst_trans (a b c : Row) (h1 : newerFirst a b = true) (h2 : newerFirst b c = true) :
+    newerFirst a c = true := by
+  simp only [newerFirst, Bool.or_eq_true, Bool.and_eq_true, decide_eq_true_eq, beq_iff_eq] at *
+  omega
+
+theorem newerFirst_total (a b : Row) : (newerFirst a b || newerFirst b a) = true := by
+  simp only [newerFirst, Bool.or_eq_true, Bool.and_eq_true, decide_eq_true_eq, beq_iff_eq]
+  omega
+
+/-- **Listing.** `get_all(space, subspace)` reports exactly the live assignments of the subspace, most
+    recent first. -/
+theorem getAll_sorted_desc_perm_live {cfg : Cfg} {db : Db} (hr : Reachable cfg db) {s : Space}
+    (hs : s ∈ Space.all) {u : Sub} (hu : u.valid = true) : Listing db s u (getAllSpace db s u) := by
+  have hinv := C01.reachable_inv hr
+  unfold getAllSpace sortDesc
+  refine ⟨fun r => ?_, ?_⟩
+  · rw [List.mem_mergeSort]; exact (live_iff_inSub hinv hs hu r).symm
+  · refine (List.pairwise_mergeSort newerFirst_trans newerFirst_total _).imp ?_
+    intro a b hab
+    simp only [newerFirst, Bool.or_eq_true, Bool.and_eq_true, decide_eq_true_eq, beq_iff_eq] at hab
+    omega
+
+/-- the listing is a permutation of the live rows (nothing duplicated, nothing lost) -/
+theorem getAll_perm {db : Db} (s : Space) (u : Sub) : (getAllSpace db s u).Perm ((db.ids s).inSub s u) :=
+  List.mergeSort_perm _ _
+
+/-- **Counting.** `count(space, subspace)` is the number of live assignments. -/
+theorem count_eq_length_live {cfg : Cfg} {db : Db} (hr : Reachable cfg db) {s : Space}
+    (hs : s ∈ Space.all) {u : Sub} (hu : u.valid = true) :
+    countSpace db s u = ((db.ids s).filter (fun r => Spec.member s u r.id)).length := by
+  have hinv := C01.reachable_inv hr
+  unfold countSpace Table.inSub
+  congr 1
+  apply List.filter_congr
+  intro r hrt
+  have := sqlFilter_iff_member hu (hinv.space s hs r hrt)
+  cases h1 : s.sqlFilter u r.id <;> cases h2 : Spec.member s u r.id <;> simp_all
+
+/-- **Clean-ups drop oldest-first.** An explicit `cleanup(space, subspace, max_ids)` (and each internal
+    clean-up of a large-subspace `get_id`, which is this very operation) removes exactly
+    `max (count - max_ids) 0` live assignments of the subspace, none of them newer than a surviving live
+    one, and touches nothing else in the table. -/
+theorem cleanup_drops_oldest_prefix {cfg : Cfg} {db db' : Db} {s : Space} {u : Sub} {m : Nat} {removed : List Nat}
+    (hr : Reachable cfg db) (hs : s ∈ Space.all) (hu : u.valid = true)
+    (h : cleanup db s u m removed = .ok db') : CleanupStep db db' s u m removed := by
+  have hinv := C01.reachable_inv hr
+  obtain ⟨hadm, rfl⟩ := cleanup_ok h
+  obtain ⟨hnd, hlen, hord⟩ := admissible_spec hadm
+  refine ⟨hnd, ?_, ?_, ?_, ?_, ?_⟩
+  · rw [hlen, ← count_eq_length_live hr hs hu]; unfold countSpace; omega
+  · intro id hid
+    obtain ⟨r, hrl, hrid⟩ := admissible_subset hadm id hid
+    exact ⟨r, (live_iff_inSub hinv hs hu r).2 hrl, hrid⟩
+  · intro r k hrl hrin hkl hkout
+    exact hord r ((live_iff_inSub hinv hs hu r).1 hrl) hrin k ((live_iff_inSub hinv hs hu k).1 hkl) hkout
+  · intro id hid; rw [ids_setIds_same, lookup_eraseAll]; simp [hid]
+  · intro id hid; rw [ids_setIds_same, lookup_eraseAll]; simp [hid]
+
 /-
-  TODO (statements fixed in DESIGN.md Appendix A.2, not proved yet; the model functions and the
-  `Spec.AllocStep` predicates they are about exist and are exercised by K/F):
-  * `cleanup_drops_oldest_prefix : cleanup db s u m removed = .ok db' → CleanupStep db db' s u m removed`
-    (needs the meaning of `admissibleRemoved`: `maxAtime`/`minAtime` bounds and the length clause);
-  * `getAll_sorted_desc_perm_live : Listing db s u (getAllSpace db s u)` (from `List.mergeSort` lemmas),
-    `count_eq_length_live`, `getAll_merged` (heap merge of the five lists is sorted and a permutation).
+  TODO (statements fixed in DESIGN.md Appendix A.2, not proved yet; the model functions they are about
+  exist and are exercised by K/F):
+  * `getAll_merged` (`get_all(None, …)`: the heap merge of the five per-space listings is sorted and a
+    permutation of their concatenation), `count(None, …)` = sum of the five counts (definitional).
 -/
 
 end Tup.C02
